@@ -4,7 +4,7 @@ import math
 import os
 import re
 
-from harness import core, py2v
+from harness import core, mo2v, py2v
 
 ID = 'C34'
 TITLE = 'Time zone conversions round-trip'
@@ -181,6 +181,11 @@ def regenerate(ctx):
   gen = os.path.join(core.COQ, 'gen')
   os.makedirs(gen, exist_ok=True)
   core.write_if_changed(os.path.join(gen, 'Moment_gen.v'), translate_code())
+  try:
+    text = mo2v.translate_module(os.path.join(core.GRIST, 'moment.py'))
+  except mo2v.Untranslatable as e:
+    raise core.TieBroken('moment.py (datetime level) is outside the translated subset: %s' % e)
+  core.write_if_changed(os.path.join(gen, 'MomentDt_gen.v'), text)
   zones = zone_data(reload=True)
   if data_problems(zones):
     raise core.TieBroken('zone data outside the exact integer model: ' + '; '.join(data_problems(zones)[:5]))
@@ -509,7 +514,7 @@ def date_cases(ctx, zones, trans):
 # correspondence: the model (translated core + Model/MomentTz.v + regenerated data) vs the running code
 
 IMPORTS = ['Grist.Lib.PyPrelude', 'Grist.Lib.PyList', 'Grist.Model.Moment', 'GristGen.Moment_gen',
-           'Grist.Model.MomentTz', 'GristGen.Tzdata_gen']
+           'Grist.Model.MomentTz', 'Grist.Model.MomentDt', 'GristGen.MomentDt_gen', 'GristGen.Tzdata_gen']
 EXTRA_DEFS = '''
 From Coq Require Import Uint63.
 (* numerals of the cases are written as primitive 63-bit ints (parsed ~6x faster than Z numerals) *)
@@ -517,18 +522,29 @@ Definition p (x : int) : Z := Uint63.to_Z x.
 Definition n (x : int) : Z := Z.opp (Uint63.to_Z x).
 Definition us (x : Z) : Z := x * 60.
 Definition ous (x : option Z) : option Z := option_map us x.
+(* the functions evaluated are the GENERATED ones (GristGen.MomentDt_gen / Moment_gen): this validates the
+   translators (mo2v, py2v) against the running code *)
 Definition chk_utc (z : zone) (c : Z * Z * option Z * Z * Z * Z) : bool :=
   let '(ts, loc, fav, off, back, idx) := c in
-  let d := ts_to_dt 7 (us ts) z in
-  andb (dt_local d =? us loc) (andb (py_opt_eqb Z.eqb (dt_favor d) (ous fav))
-  (andb (tz_utcoffset 7 z d =? us off) (andb (dt_to_ts 7 z d =? us back) (zone_index 7 z (us ts) =? idx)))).
+  let d := moment_ts_to_dt 7 (us ts) z None in
+  andb (d_naive d =? us loc)
+  (andb (match d_tz d with Some t => py_opt_eqb Z.eqb (tz_favor t) (ous fav) | None => false end)
+  (andb (match py_dt_utcoffset 7 d with Some o => o =? us off | None => false end)
+  (andb (moment_dt_to_ts 7 d None =? us back)
+        (zone_index 7 z (moment_utc_to_ts_ms 7 (mk_dt (us ts) None)) =? idx)))).
 Definition chk_local (z : zone) (c : Z * option Z * Z * Z * Z) : bool :=
   let '(l, fav, idx, off, ts) := c in
+  let d := mk_dt (us l) (Some (py_get_tzinfo z (ous fav))) in
   andb (zone_index_dt 7 z (us l) (ous fav) =? idx)
-  (andb (zone_dt_offset 7 z (us l) (ous fav) =? us off) (local_to_ts 7 z (us l) (ous fav) =? us ts)).
+  (andb (match py_dt_utcoffset 7 d with Some o => o =? us off | None => false end)
+  (andb (moment_dt_to_ts 7 d None =? us ts)
+        (match fav with None => moment_dt_to_ts 7 (mk_dt (us l) None) (Some z) =? us ts | Some _ => true end))).
 Definition chk_date (z : zone) (c : Z * Z * Z) : bool :=
   let '(d, ts, back) := c in
-  andb (date_to_ts_zone 7 d z =? us ts) (adt_date (ts_to_dt 7 (date_to_ts_zone 7 d z) z) =? back).
+  andb (moment_date_to_ts 7 d (Some z) =? us ts)
+  (andb (py_dt_date (moment_ts_to_dt 7 (moment_date_to_ts 7 d (Some z)) z None) =? back)
+  (andb (moment_date_to_ts 7 d None =? us (d * 86400000000))
+        (moment_ts_to_date 7 (moment_date_to_ts 7 d None + us 86399999999) =? d))).
 Definition chk_zone (c : zone * list Z * list Z * list Z) : bool :=
   let '(z, u, o, ou) := c in
   andb (py_list_eqb Z.eqb (z_untils z) (map (fun x => x * 60000) u))
@@ -613,7 +629,7 @@ def correspond(ctx):
   trans = pick_transitions(ctx, zones)
   ctx._c34 = {'trans': trans, 'groups': []}
   # the model and the data must be compiled even when a proof above them no longer checks
-  rc, out = core.coq_make(['theories/Model/MomentTz.vo', 'gen/Tzdata_gen.vo'], timeout=900)
+  rc, out = core.coq_make(['theories/Model/MomentTz.vo', 'gen/MomentDt_gen.vo', 'gen/Tzdata_gen.vo'], timeout=900)
   if rc != 0:
     raise core.TieBroken('model/data do not compile: ' + out[-1500:])
 
@@ -690,6 +706,20 @@ def correspond(ctx):
   run_grouped(ctx, 'dates', 'chk_date', items,
               lambda zd, p: 'zone %s day %d: implementation gives ts %r, date %d' % (zd.name, p[0], p[1], p[2]))
   evaluate_groups(ctx)
+  ctx.extra['translator_validation'] = {
+    'translators': 'harness/py2v.py (Zone._index, _index_dt, offset, dt_offset, offset_untils) and harness/mo2v.py '
+                   '(utc_to_ts_ms, TzInfo.utcoffset, TzInfo.fromutc, ts_to_dt, dt_to_ts, ts_to_date, date_to_ts)',
+    'generated_definitions_evaluated_vs_running_code': {
+      k[len('coq-cases:'):]: v for k, v in ctx.hist.items() if k.startswith('coq-cases:')},
+    'disagreements': len([b for b in ctx.brokens if b['name'].startswith('correspondence')]),
+  }
+  # CPython's astimezone returns self when the target tzinfo IS the datetime's own (the cached UTC zone): same
+  # instant and offset as the modelled path through fromutc
+  utc_cached, utc_fresh = m.get_zone('UTC'), m.Zone('UTC')
+  for ts in (0, 1, -1, 1426291200, 2 ** 31, 1548118059.219071):
+    a, b = m.ts_to_dt(ts, utc_cached), m.ts_to_dt(ts, utc_fresh)
+    if (a.replace(tzinfo=None), a.utcoffset(), m.dt_to_ts(a)) != (b.replace(tzinfo=None), b.utcoffset(), m.dt_to_ts(b)):
+      ctx.broken('correspondence:astimezone shortcut', 'ts_to_dt(%r, UTC) differs between cached and fresh zone' % ts)
 
 
 # ---------------------------------------------------------------------------------------------
